@@ -20,7 +20,8 @@ META = {
              "unchanged, disconnected, Logout with Text last on the tap when CompIDs were valid; (C) after every kind of disconnect (each B "
              "cell, inbound Logout, EOF, reset, watchdog, application disconnect, double causes): further valid frames in the same read and "
              "later produce no frame and no callback, sends are refused, on_disconnect exactly once; distinct = cell id; non-trivial = all"),
-    "assumptions": ["below-expectation frames carrying PossDupFlag=Y or of type SequenceReset are outside this property (C04)",
+    "assumptions": ["whether the Logout by which an acceptor refuses a Logon (initiator in LOGON_INITIAL_SENT, expected number) is counted is unspecified",
+                    "below-expectation frames carrying PossDupFlag=Y or of type SequenceReset are outside this property (C04)",
                     "a non-numeric MsgSeqNum is not named by the statement: only no-delivery and no-counter-advance are judged for it",
                     "what an initiator does with a too-high Logon reply is C04/C07's subject"],
 }
@@ -200,7 +201,10 @@ async def cell_A_in(acc, clock, cell, cid):
     others = [fixwire.get(f, 35) for f in new if fixwire.get(f, 35) != "5"]
     if others or len(new) > 1:
         return acc.violation(f"{tag}:replies-to-{cls}", f"frames {[fixwire.get(f, 35) for f in new]} written in reply to a {cls} before Logon", w, cid)
-    if (n.live_in, n.st_in) != (o.live_in, o.st_in):
+    logout_refusal = cls == "logout" and st == "logon_sent" and rel == 0
+    # unspecified: whether the Logout with which an acceptor refuses the Logon (the expected number) is counted; FIX counts it,
+    # the statement's 'never advance the inbound counter' clause is about integrity failures
+    if (n.live_in, n.st_in) != (o.live_in, o.st_in) and not logout_refusal:
         return acc.violation(f"{tag}:inbound-counter-moved-by-{'sequence-reset' if cls in ('gf', 'rs') else 'non-logon'}",
                              f"inbound counter live {o.live_in}->{n.live_in} stored {o.st_in}->{n.st_in} on a {cls} before Logon", w, cid)
     if n.state > CS.DISCONNECTED_BROKEN_CONN:
